@@ -162,7 +162,24 @@ theorem lastRelay_broken {c : Msg6} (h : Broken c) : ∀ fuel, lastRelay fuel c 
       simp only [lastRelay, decapsulateRelay, h1, hr, if_true]
       exact ih f
 
-/-- the levels above the break can still be peeled one by one -/
+/-- above the break the levels can still be peeled: what is left is again a broken chain -/
+theorem decapN_broken_cases {c : Msg6} (h : Broken c) : ∀ n,
+    decapN n c = .err ∨ ∃ c', decapN n c = .ok c' ∧ Broken c' := by
+  induction h with
+  | @here t hc l p os h1 =>
+    intro n
+    cases n with
+    | zero => exact .inr ⟨_, rfl, .here h1⟩
+    | succ n => exact .inl (by simp [decapN, decapsulateRelay, h1, Res.bind])
+  | @deeper t hc l p os r h1 hb ih =>
+    intro n
+    cases n with
+    | zero => exact .inr ⟨_, rfl, .deeper h1 hb⟩
+    | succ n =>
+      simp only [decapN, decapsulateRelay, h1, Res.bind]
+      exact ih n
+
+/-- no result is a panic -/
 theorem decapN_ok_or_err (c : Msg6) (n : Nat) : decapN n c = .err ∨ ∃ c', decapN n c = .ok c' := by
   cases h : decapN n c with
   | ok c' => exact .inr ⟨c', rfl⟩
@@ -176,9 +193,16 @@ below `-1`. -/
 theorem decapsulateRelayIndex_broken {c : Msg6} (h : Broken c) :
     decapsulateRelayIndex c (-1) = .err ∧
     (∀ k : Nat, msgDepth c ≤ k + 1 → decapsulateRelayIndex c (k : Int) = .err) ∧
-    (∀ i : Int, i < -1 → decapsulateRelayIndex c i = .err) := by
+    (∀ i : Int, i < -1 → decapsulateRelayIndex c i = .err) ∧
+    (∀ k : Nat, decapsulateRelayIndex c (k : Int) = .err ∨
+      ∃ c', decapsulateRelayIndex c (k : Int) = .ok c' ∧ Broken c') := by
   have hr : c.isRelay = true := by cases h <;> rfl
-  refine ⟨?_, fun k hk => ?_, fun i hi => ?_⟩
+  have idx : ∀ k : Nat, decapsulateRelayIndex c (k : Int) = decapN (k + 1) c := by
+    intro k
+    have hk1 : ¬ ((k : Int) < -1) := by omega
+    have hk2 : ¬ ((k : Int) = -1) := by omega
+    simp [decapsulateRelayIndex, hr, hk1, hk2]
+  refine ⟨?_, fun k hk => ?_, fun i hi => ?_, fun k => by rw [idx]; exact decapN_broken_cases h _⟩
   · have : decapsulateRelayIndex c (-1) = lastRelay (msgDepth c + 1) c := by
       simp [decapsulateRelayIndex, hr]
     rw [this]; exact lastRelay_broken h _
